@@ -19,7 +19,11 @@ KW_NAMES = ("bidoffer", "coupons", "cost_long", "cost_short")
 
 
 def key_of(k):
-    return "k%d" % k
+    return "unit_risk" if k == 0 else "k%d" % k
+
+
+def measure_of(m):
+    return "m%d" % m
 
 
 def ts(x):
@@ -136,6 +140,10 @@ def make_algo(a):
         return algos.ReplayTransactions(key_of(a[1]))
     if k == "useradjust":
         return UserAdjust(fx(a[1]), bool(a[2]), bool(a[3]))
+    if k == "updaterisk":
+        return algos.UpdateRisk(measure_of(a[1]), history=int(a[2]))
+    if k == "hedgerisk1":
+        return algos.HedgeRisks([measure_of(a[1])])
     raise ValueError(k)
 
 
@@ -184,6 +192,11 @@ def adata_of(a, idx):
     if kind == "roll":
         return pd.DataFrame({"date": [ts(r[1]) for r in a[1]], "target": [name_of(r[2]) for r in a[1]],
                              "factor": [fx(r[3]) for r in a[1]]}, index=[name_of(r[0]) for r in a[1]])
+    if kind == "risk":
+        return {measure_of(m): pd.DataFrame({name_of(k): [fx(x) for x in col] for k, col in cols},
+                                            index=pd.DatetimeIndex([ts(x) for x in ix]),
+                                            columns=[name_of(k) for k, _ in cols], dtype=float)
+                for m, ix, cols in a[1]}
     if kind == "trans":
         mi = pd.MultiIndex.from_tuples([(ts(r[0]), name_of(r[1])) for r in a[1]], names=["Date", "Security"])
         return pd.DataFrame({"quantity": [fx(r[2]) for r in a[1]], "price": [fx(r[3]) for r in a[1]]}, index=mi)
@@ -213,6 +226,11 @@ def run_case(c, out, extra=None):
         if out[-1] != "BUILD ok":
             out.append("BUILD ok")
         out.append("OP 0 err %s" % classify(e))
+        if c.get("dump_on_error") and "b" in locals():
+            try:
+                dump_tree(out, b.strategy, b.dates)      # the partial run: rows up to the failing date
+            except Exception:  # noqa: BLE001
+                pass
         out.append("END")
         return None
     out.append("OP 0 ok nan")
